@@ -71,6 +71,7 @@ func TestDifferentialAgainstRealOS(t *testing.T) {
 		if err != nil {
 			t.Fatal(err)
 		}
+		t.Cleanup(func() { realos.RemoveAll(root) })
 		var log []string
 		type pair struct{ sim, real string }
 		check := func(op string, e1, e2 error) {
